@@ -1384,7 +1384,7 @@ func genMvccSession(rng *rand.Rand, st *Stats) []string {
 			}
 			if rng.Intn(3) == 0 {
 				sk := genUserKey(rng, 1, 3)
-				if i := strings.Index(o, " prefix="); i >= 0 {
+				if i := strings.Index(o, " prefix="); i >= 0 && rng.Intn(3) != 0 {
 					// with Prefix set, seek inside the prefix (seeks outside it depend on which
 					// tables the prefix-based table picking leaves out; not part of the property)
 					sk = append(unhx(o[i+8:]), sk[:rng.Intn(len(sk))]...)
